@@ -300,6 +300,7 @@ int main(int argc, char **argv) {
             char kind[32];
             if (sscanf(NEXT, "%31[^,],%u,%d", kind, &g_src_seed, &g_src_bits) == 3) g_src_kind = gv_kind(kind);
         } else if (!strcmp(a, "--trace")) streams = NEXT;
+        else if (!strcmp(a, "--trace-jitter")) { unsigned js = 0; int jp = 0, ju = 0; sscanf(NEXT, "%u:%d:%d", &js, &jp, &ju); vrt_trace_jitter(js, jp, ju); }
         else if (!strcmp(a, "--trace-out")) trace_out = NEXT;
         else if (!strcmp(a, "--perturb")) sscanf(NEXT, "%u:%d:%d", &pt_seed, &pt_pm, &pt_us);
         else { fprintf(stderr, "unknown option %s\n", a); return 2; }
